@@ -17,6 +17,8 @@ import (
 	coreheader "cosmossdk.io/core/header"
 	sdkmath "cosmossdk.io/math"
 	"cosmossdk.io/x/feegrant"
+	wasmvmtypes "github.com/CosmWasm/wasmvm/v2/types"
+	abci "github.com/cometbft/cometbft/abci/types"
 	codectypes "github.com/cosmos/cosmos-sdk/codec/types"
 	sdk "github.com/cosmos/cosmos-sdk/types"
 	"github.com/cosmos/cosmos-sdk/x/authz"
@@ -672,7 +674,7 @@ func TestC03(t *testing.T) {
 		if verdict == "violation" {
 			r.Hit("cross-principal-write", fmt.Sprintf("%s %s: state attributed to principal %d changed: %v (code=%d log=%.200s)", o.typ, o.sc, o.victim, diff, o.res.Code, o.res.Log), line)
 		}
-		unauthorisedScenario := o.sc == "a" || o.sc == "x" || o.sc == "e" || o.sc == "e0" || strings.HasPrefix(o.sc, "d")
+		unauthorisedScenario := o.sc == "a" || o.sc == "x" || o.sc == "w" || o.sc == "e" || o.sc == "e0" || strings.HasPrefix(o.sc, "d")
 		if unauthorisedScenario && ok {
 			r.Hit("unauthorised-accepted", fmt.Sprintf("%s scenario %s was accepted", o.typ, o.sc), line)
 		}
@@ -982,7 +984,7 @@ func TestC03(t *testing.T) {
 		}
 		A, B := pick2(pool)
 		// applicable scenarios
-		scs := []string{"ok", "a", "b", "e", "e0", "x", "x", "xb", "xs"}
+		scs := []string{"ok", "a", "b", "e", "e0", "x", "x", "xb", "xs", "w", "w", "ws"}
 		if m.NeedsAuthority {
 			scs = []string{"d", "d3", "gov", "e", "e0"}
 			if len(m.IdentityFields) > 0 && m.IdentityFields[0].Name == "Authority" {
@@ -1055,6 +1057,43 @@ func TestC03(t *testing.T) {
 					inner = &ex
 				}
 				return fa.DeliverTx(A.acc, inner)
+			}
+		case "w", "ws":
+			// the message is dispatched by a CosmWasm contract as CosmosMsg::Any (account A stands for the contract's
+			// address): the chain only checks that the declared signer is the contract; no ante handler runs.
+			//   w : creator B, declared signer = the contract  -> nothing of B's may change
+			//   ws: the contract's own message                  -> as if the contract were an account
+			who := B
+			if sc == "ws" {
+				who = A
+			}
+			msg = m.Build(w, who.acc, r.Rng, hostile)
+			o.creator = who.pid
+			deliver = func() FATxResult {
+				ZooSetMeta(msg, who.acc.Addr.String(), A.acc.Addr.String())
+				bz, err := fa.App().AppCodec().Marshal(msg.(interface {
+					Reset()
+					String() string
+					ProtoMessage()
+				}))
+				if err != nil {
+					return FATxResult{Code: 1, Log: "marshal: " + err.Error()}
+				}
+				var derr error
+				b, herr := fa.WithDeliverCtx(func(ctx sdk.Context) error {
+					_, _, _, derr = fa.App().VerifWasmMessenger().DispatchMsg(ctx, A.acc.Addr, "", wasmvmtypes.CosmosMsg{Any: &wasmvmtypes.AnyMsg{TypeURL: sdk.MsgTypeURL(msg), Value: bz}})
+					return derr
+				})
+				res := FATxResult{Height: b.Height}
+				if herr != nil || derr != nil {
+					res.Code, res.Log = 1, fmt.Sprint(herr, derr)
+					// the creator gate of the wasm message router plays the part of the ante decorator here: a
+					// message it let through (and the handler then refused) counts as "passed"
+					if !strings.Contains(res.Log, "cannot dispatch a message created by") {
+						res.Events = []abci.Event{{Type: "verif-passed-the-creator-gate"}}
+					}
+				}
+				return res
 			}
 		case "e":
 			msg = m.Build(w, B.acc, r.Rng, hostile)
@@ -1146,7 +1185,7 @@ func TestC03(t *testing.T) {
 		cfBefore := dir.confirmSnapshot()
 		o.res = deliver()
 		o.after = c03Attributed(w, fa.CtxCached(), victim)
-		wrapped := strings.HasPrefix(sc, "x")
+		wrapped := strings.HasPrefix(sc, "x") || strings.HasPrefix(sc, "w")
 		if p := faRecover(func() {
 			// baseapp validates only the transaction's own messages statelessly; a message inside an authz
 			// MsgExec is validated when authz dispatches it, i.e. AFTER the ante chain
